@@ -39,6 +39,53 @@ def bytesLe : Bytes → Bytes → Bool
   | _ :: _, [] => false
   | a :: as, b :: bs => if a < b then true else if b < a then false else bytesLe as bs
 
+/-- Insertion sort (structurally recursive, so that concrete walks evaluate by `decide`): the order
+    `os.ReadDir` returns — entries sorted by name; names within a directory are distinct. -/
+def insertBy {α : Type} (le : α → α → Bool) (a : α) : List α → List α
+  | [] => [a]
+  | b :: bs => if le a b then a :: b :: bs else b :: insertBy le a bs
+
+def sortBy {α : Type} (le : α → α → Bool) : List α → List α
+  | [] => []
+  | a :: as => insertBy le a (sortBy le as)
+
+theorem insertBy_perm {α : Type} (le : α → α → Bool) (a : α) (l : List α) : (insertBy le a l).Perm (a :: l) := by
+  induction l with
+  | nil => simp [insertBy]
+  | cons b bs ih =>
+    unfold insertBy
+    split
+    · exact List.Perm.refl _
+    · exact (List.Perm.cons b ih).trans (List.Perm.swap a b bs)
+
+theorem sortBy_perm {α : Type} (le : α → α → Bool) (l : List α) : (sortBy le l).Perm l := by
+  induction l with
+  | nil => simp [sortBy]
+  | cons a as ih => exact (insertBy_perm le a _).trans (List.Perm.cons a ih)
+
+theorem mem_sortBy {α : Type} (le : α → α → Bool) (l : List α) (a : α) : a ∈ sortBy le l ↔ a ∈ l :=
+  (sortBy_perm le l).mem_iff
+
+theorem map_insertBy {α β : Type} (r : α → α → Bool) (s : β → β → Bool) (f : α → β) (a : α) (l : List α)
+    (h : ∀ b ∈ l, r a b = s (f a) (f b)) : (insertBy r a l).map f = insertBy s (f a) (l.map f) := by
+  induction l with
+  | nil => simp [insertBy]
+  | cons b bs ih =>
+    have hb := h b (by simp)
+    simp only [insertBy, List.map_cons, ← hb]
+    split
+    · simp
+    · simp [ih (fun x hx => h x (by simp [hx]))]
+
+theorem map_sortBy {α β : Type} (r : α → α → Bool) (s : β → β → Bool) (f : α → β) (l : List α)
+    (h : ∀ a ∈ l, ∀ b ∈ l, r a b = s (f a) (f b)) : (sortBy r l).map f = sortBy s (l.map f) := by
+  induction l with
+  | nil => simp [sortBy]
+  | cons a as ih =>
+    simp only [sortBy, List.map_cons]
+    rw [map_insertBy r s f a _ (fun b hb => h a (by simp) b (by simp [(mem_sortBy r as b).1 hb])),
+        ih (fun x hx y hy => h x (by simp [hx]) y (by simp [hy]))]
+
 def segLe (a b : Bytes × List Entry) : Bool := bytesLe a.1 b.1
 def nodeLe (a b : Node) : Bool := bytesLe a.name b.name
 
@@ -46,7 +93,7 @@ mutual
 /-- `filepath.Walk` from a node whose relative path is `p`. -/
 def Node.walk : Node → List Bytes → List Entry
   | .file f, p => [⟨p, f.name, some f⟩]
-  | .dir n kids, p => ⟨p, n, none⟩ :: ((Node.walkKids kids p).mergeSort segLe).flatMap (·.2)
+  | .dir n kids, p => ⟨p, n, none⟩ :: (sortBy segLe (Node.walkKids kids p)).flatMap (·.2)
 def Node.walkKids : List Node → List Bytes → List (Bytes × List Entry)
   | [], _ => []
   | k :: ks, p => (k.name, k.walk (p ++ [k.name])) :: Node.walkKids ks p
@@ -62,12 +109,11 @@ theorem walkKids_eq_map (kids : List Node) (p : List Bytes) :
     order of their names, each child's path being the directory's path extended by the child's name. -/
 theorem walk_dir (n : Bytes) (kids : List Node) (p : List Bytes) :
     (Node.dir n kids).walk p =
-      ⟨p, n, none⟩ :: ((kids.mergeSort nodeLe).flatMap fun k => k.walk (p ++ [k.name])) := by
+      ⟨p, n, none⟩ :: ((sortBy nodeLe kids).flatMap fun k => k.walk (p ++ [k.name])) := by
   rw [Node.walk, walkKids_eq_map]
   congr 1
-  rw [← List.map_mergeSort (r := nodeLe) (s := segLe) (f := fun k => (k.name, k.walk (p ++ [k.name])))]
-  · simp [List.flatMap_map]
-  · intro a _ b _; rfl
+  rw [← map_sortBy nodeLe segLe (fun k => (k.name, k.walk (p ++ [k.name]))) kids (fun a _ b _ => rfl)]
+  simp [List.flatMap_map]
 
 theorem walk_file (f : StoredFile) (p : List Bytes) : (Node.file f).walk p = [⟨p, f.name, some f⟩] := by
   rw [Node.walk]
@@ -100,7 +146,7 @@ theorem walk_perm_preorder : ∀ (t : Node) (p : List Bytes), (t.walk p).Perm (t
   | .dir n kids, p => by
     rw [Node.walk, Node.preorder]
     apply List.Perm.cons
-    exact ((List.mergeSort_perm _ _).flatMap_right _).trans (walkKids_perm_preorder kids p)
+    exact ((sortBy_perm _ _).flatMap_right _).trans (walkKids_perm_preorder kids p)
 theorem walkKids_perm_preorder : ∀ (ks : List Node) (p : List Bytes),
     ((Node.walkKids ks p).flatMap (·.2)).Perm (Node.preorderKids ks p)
   | [], p => by simp [Node.walkKids, Node.preorderKids]
@@ -463,5 +509,294 @@ theorem upItem_cut_file (fs : Fs) (it : UpItem) (n : Nat) (hf : it.isDir = false
     simp [hf, clientDelivery, this]
   rw [hup]; unfold upFile
   simp [hpar, ha, hc, hfree]
+
+
+-- ---------------------------------------------------------------- a whole stream of items into fresh names
+
+/-- Each item arrives at a free name below an existing folder (evaluated on the *expected* store). -/
+def StreamOK : Fs → List UpItem → Prop
+  | _, [] => True
+  | fs, it :: rest => it.OK ∧ fs.get it.path = {} ∧ fs.parentOK it.path = true ∧ StreamOK (fs.set it.path it.slot) rest
+
+/-- The expected store: every streamed item bound to its slot. -/
+def applyItems (fs : Fs) (its : List UpItem) : Fs := its.foldl (fun fs it => fs.set it.path it.slot) fs
+
+theorem applyItems_append (fs : Fs) (a b : List UpItem) : applyItems fs (a ++ b) = applyItems (applyItems fs a) b := by
+  simp [applyItems, List.foldl_append]
+
+theorem StreamOK_append (fs : Fs) (a b : List UpItem) :
+    StreamOK fs (a ++ b) ↔ StreamOK fs a ∧ StreamOK (applyItems fs a) b := by
+  induction a generalizing fs with
+  | nil => simp [StreamOK, applyItems]
+  | cons it a ih =>
+    simp only [List.cons_append, StreamOK, ih, applyItems, List.foldl_cons]
+    constructor
+    · rintro ⟨h1, h2, h3, h4, h5⟩; exact ⟨⟨h1, h2, h3, h4⟩, h5⟩
+    · rintro ⟨⟨h1, h2, h3, h4⟩, h5⟩; exact ⟨h1, h2, h3, h4, h5⟩
+
+theorem UpItem.slot_ne_empty (it : UpItem) : it.slot ≠ {} := by
+  unfold UpItem.slot; split <;> simp
+
+/-- What the server writes for an item that arrives at a free name and is delivered completely. -/
+def UpItem.freshWrote (it : UpItem) : Bytes := if it.isDir then [0, 3] else [0, 1] ++ [0, 3]
+
+/-- **The loop on a stream of fresh items**: every item is accepted, folders are answered "next", files
+    "send" then "next", and the store afterwards binds every streamed item to exactly what was streamed. -/
+theorem uploadItems_streamOK (fs : Fs) (its : List UpItem) (h : StreamOK fs its) :
+    uploadItems fs (its.map fun it => (it, none)) = (applyItems fs its, its.map UpItem.freshWrote, true) := by
+  induction its generalizing fs with
+  | nil => simp [uploadItems, applyItems]
+  | cons it its ih =>
+    obtain ⟨hok, hfree, hpar, hrest⟩ := h
+    simp only [List.map_cons, uploadItems]
+    by_cases hd : it.isDir = true
+    · obtain ⟨h1, h2, h3⟩ := upItem_folder fs it none hd hfree hpar
+      have hs : it.slot = { final := some .dir } := by simp [UpItem.slot, hd]
+      rw [h1, h3, h2]
+      simp only [if_true]
+      rw [← hs, ih _ hrest]
+      simp [applyItems, UpItem.freshWrote, hd]
+    · have hf : it.isDir = false := by simpa using hd
+      obtain ⟨h1, h2, h3⟩ := upItem_fresh_file fs it hf hok hfree hpar
+      have hs : it.slot = { final := some (.file it.data) } := by simp [UpItem.slot, hf]
+      rw [h1, h3, h2]
+      simp only [if_true]
+      rw [← hs, ih _ hrest]
+      simp [applyItems, UpItem.freshWrote, hf]
+
+/-- A name that is bound is not the target of any later item of an acceptable stream. -/
+theorem StreamOK_avoids (fs : Fs) (its : List UpItem) (h : StreamOK fs its) (q : List Bytes) (hq : fs.get q ≠ {}) :
+    ∀ it ∈ its, it.path ≠ q := by
+  induction its generalizing fs with
+  | nil => simp
+  | cons it its ih =>
+    obtain ⟨_, hfree, _, hrest⟩ := h
+    intro x hx
+    rcases List.mem_cons.1 hx with rfl | hx
+    · intro e; rw [e] at hfree; exact hq hfree
+    · have hne : it.path ≠ q := by intro e; rw [e] at hfree; exact hq hfree
+      exact ih _ hrest (by rw [Fs.get_set_other _ _ _ _ hne]; exact hq) x hx
+
+/-- The expected store holds every streamed item, and nothing else changed. -/
+theorem applyItems_get (fs : Fs) (its : List UpItem) (h : StreamOK fs its) :
+    (∀ it ∈ its, (applyItems fs its).get it.path = it.slot) ∧
+    (∀ q, (∀ it ∈ its, it.path ≠ q) → (applyItems fs its).get q = fs.get q) := by
+  induction its generalizing fs with
+  | nil => simp [applyItems]
+  | cons it its ih =>
+    obtain ⟨_, hfree, _, hrest⟩ := h
+    obtain ⟨ih1, ih2⟩ := ih _ hrest
+    have hap : applyItems fs (it :: its) = applyItems (fs.set it.path it.slot) its := by simp [applyItems]
+    rw [hap]
+    constructor
+    · intro x hx
+      rcases List.mem_cons.1 hx with rfl | hx
+      · have := StreamOK_avoids _ _ hrest x.path (by rw [Fs.get_set_same]; exact x.slot_ne_empty)
+        rw [ih2 _ this, Fs.get_set_same]
+      · exact ih1 x hx
+    · intro q hq
+      rw [ih2 q (fun x hx => hq x (by simp [hx])), Fs.get_set_other _ _ _ _ (hq it (by simp))]
+
+-- ---------------------------------------------------------------- the stream of a tree
+
+mutual
+/-- Trees a client can stream: sibling names are distinct; files fit the protocol's fields. -/
+def Node.Good : Node → Prop
+  | .file f => f.effInfo.WFup ∧ f.data.length < 4294967296 ∧ (f.rsrc.getD []).length < 4294967296
+  | .dir _ kids => Node.GoodKids kids ∧ (kids.map Node.name).Nodup
+def Node.GoodKids : List Node → Prop
+  | [] => True
+  | k :: ks => k.Good ∧ Node.GoodKids ks
+end
+
+theorem goodKids_mem (ks : List Node) (h : Node.GoodKids ks) : ∀ k ∈ ks, k.Good := by
+  induction ks with
+  | nil => simp
+  | cons k ks ih =>
+    rw [Node.GoodKids] at h
+    intro x hx
+    rcases List.mem_cons.1 hx with rfl | hx
+    · exact h.1
+    · exact ih h.2 x hx
+
+/-- The items a client streams for a subtree rooted at relative path `p`. -/
+def Node.stream (t : Node) (p : List Bytes) : List UpItem := (t.walk p).map Entry.toItem
+
+theorem prefix_snoc_inj (p q : List Bytes) (a b : Bytes) (h1 : (p ++ [a]) <+: q) (h2 : (p ++ [b]) <+: q) : a = b := by
+  obtain ⟨r1, e1⟩ := h1
+  obtain ⟨r2, e2⟩ := h2
+  have : p ++ (a :: r1) = p ++ (b :: r2) := by simpa using e1.trans e2.symm
+  have := List.append_cancel_left this
+  exact (List.cons.inj this).1
+
+theorem not_prefix_snoc_self (p : List Bytes) (a : Bytes) : ¬ (p ++ [a]) <+: p := by
+  intro h; have := h.length_le; simp at this; omega
+
+/-- The statement proved for every subtree: streamed below an existing folder into a region that holds
+    nothing, all its items are accepted, and only names at or below its own path change. -/
+def SubtreeOK (t : Node) : Prop :=
+  ∀ (fs : Fs) (p : List Bytes), t.Good → fs.parentOK p = true → (∀ q, p <+: q → fs.get q = {}) →
+    StreamOK fs (t.stream p) ∧ (∀ q, ¬ p <+: q → (applyItems fs (t.stream p)).get q = fs.get q)
+
+/-- The children loop (over any list of distinct children of the directory at `p`). -/
+theorem kids_loop (kids : List Node) (ih : ∀ k ∈ kids, SubtreeOK k) (hgood : ∀ k ∈ kids, k.Good) (p : List Bytes) :
+    ∀ (L : List Node), (∀ k ∈ L, k ∈ kids) → (L.map Node.name).Nodup →
+    ∀ (fs : Fs), (p = [] ∨ (fs.get p).final = some .dir) →
+      (∀ k ∈ L, ∀ q, (p ++ [k.name]) <+: q → fs.get q = {}) →
+      StreamOK fs (L.flatMap fun k => k.stream (p ++ [k.name])) ∧
+      (∀ q, (∀ k ∈ L, ¬ (p ++ [k.name]) <+: q) → (applyItems fs (L.flatMap fun k => k.stream (p ++ [k.name]))).get q = fs.get q) := by
+  intro L
+  induction L with
+  | nil => intro _ _ fs _ _; simp [StreamOK, applyItems]
+  | cons k L ihL =>
+    intro hsub hnd fs hp hempty
+    have hk : k ∈ kids := hsub k (by simp)
+    have hnd' : k.name ∉ L.map Node.name ∧ (L.map Node.name).Nodup := by simpa using hnd
+    have hpar : fs.parentOK (p ++ [k.name]) = true := by
+      unfold Fs.parentOK
+      rw [List.dropLast_concat]
+      rcases hp with rfl | hp
+      · simp
+      · simp [hp]
+    obtain ⟨s1, f1⟩ := ih k hk fs (p ++ [k.name]) (hgood k hk) hpar (hempty k (by simp))
+    have hframe_p : (applyItems fs (k.stream (p ++ [k.name]))).get p = fs.get p :=
+      f1 p (not_prefix_snoc_self p k.name)
+    obtain ⟨s2, f2⟩ := ihL (fun x hx => hsub x (by simp [hx])) hnd'.2 (applyItems fs (k.stream (p ++ [k.name])))
+      (by rcases hp with h | h
+          · exact Or.inl h
+          · exact Or.inr (by rw [hframe_p]; exact h))
+      (by
+        intro k2 hk2 q hq
+        have hne : k2.name ≠ k.name := by
+          intro e; exact hnd'.1 (by rw [← e]; exact List.mem_map_of_mem hk2)
+        have : ¬ (p ++ [k.name]) <+: q := fun h' => hne (prefix_snoc_inj p q _ _ hq h')
+        rw [f1 q this]; exact hempty k2 (by simp [hk2]) q hq)
+    rw [List.flatMap_cons]
+    refine ⟨(StreamOK_append _ _ _).2 ⟨s1, s2⟩, ?_⟩
+    intro q hq
+    rw [applyItems_append, f2 q (fun x hx => hq x (by simp [hx])), f1 q (hq k (by simp))]
+
+theorem stream_dir (n : Bytes) (kids : List Node) (p : List Bytes) :
+    (Node.dir n kids).stream p = { path := p, isDir := true } ::
+      ((sortBy nodeLe kids).flatMap fun k => k.stream (p ++ [k.name])) := by
+  unfold Node.stream
+  rw [walk_dir, List.map_cons, List.map_flatMap]
+  rfl
+
+theorem sorted_kids_facts (kids : List Node) (hnd : (kids.map Node.name).Nodup) :
+    (∀ k ∈ sortBy nodeLe kids, k ∈ kids) ∧ ((sortBy nodeLe kids).map Node.name).Nodup := by
+  constructor
+  · intro k hk; exact (mem_sortBy nodeLe kids k).1 hk
+  · exact ((sortBy_perm nodeLe kids).map Node.name).nodup_iff.2 hnd
+
+mutual
+theorem subtreeOK : ∀ (t : Node), SubtreeOK t
+  | .file f => by
+    intro fs p hg hpar hempty
+    rw [Node.Good] at hg
+    have hst : (Node.file f).stream p = [{ path := p, isDir := false, fc := f.forkCount, info := f.effInfo, data := f.data, rsrc := f.rsrc.getD [] }] := by
+      simp [Node.stream, walk_file, Entry.toItem]
+    rw [hst]
+    refine ⟨⟨Or.inr ⟨hg.1, by show f.forkCount < 65536; unfold StoredFile.forkCount; split <;> omega, hg.2.1, hg.2.2⟩, hempty p (List.prefix_refl p), hpar, trivial⟩, ?_⟩
+    intro q hq
+    have : p ≠ q := fun e => hq (e ▸ List.prefix_refl p)
+    simp [applyItems, Fs.get_set_other _ _ _ _ this]
+  | .dir n kids => by
+    intro fs p hg hpar hempty
+    rw [Node.Good] at hg
+    rw [stream_dir]
+    obtain ⟨hsub, hnd⟩ := sorted_kids_facts kids hg.2
+    have hslot : (⟨p, true, 2, defaultInfo [] (List.replicate 8 0) [0, 0, 0, 0] [0, 0, 0, 0], [], []⟩ : UpItem).slot = { final := some .dir } := by
+      simp [UpItem.slot]
+    obtain ⟨s, f⟩ := kids_loop kids (subtreeOK_kids kids) (goodKids_mem kids hg.1) p (sortBy nodeLe kids) hsub hnd
+      (fs.set p { final := some .dir }) (Or.inr (by simp))
+      (by
+        intro k _ q hq
+        have hpq : p <+: q := (List.prefix_append p [k.name]).trans hq
+        have hne : p ≠ q := by
+          intro e; rw [← e] at hq; exact not_prefix_snoc_self p k.name hq
+        rw [Fs.get_set_other _ _ _ _ hne]; exact hempty q hpq)
+    refine ⟨⟨Or.inl rfl, hempty p (List.prefix_refl p), hpar, by rw [hslot]; exact s⟩, ?_⟩
+    intro q hq
+    have hne : p ≠ q := fun e => hq (e ▸ List.prefix_refl p)
+    have : applyItems fs (({ path := p, isDir := true } : UpItem) :: ((sortBy nodeLe kids).flatMap fun k => k.stream (p ++ [k.name])))
+        = applyItems (fs.set p { final := some .dir }) ((sortBy nodeLe kids).flatMap fun k => k.stream (p ++ [k.name])) := by
+      simp [applyItems, UpItem.slot]
+    rw [this, f q (fun k _ h' => hq ((List.prefix_append p [k.name]).trans h')), Fs.get_set_other _ _ _ _ hne]
+theorem subtreeOK_kids : ∀ (ks : List Node), ∀ k ∈ ks, SubtreeOK k
+  | [] => by simp
+  | k :: ks => by
+    intro x hx
+    rcases List.mem_cons.1 hx with h | h
+    · exact h ▸ subtreeOK k
+    · exact subtreeOK_kids ks x h
+end
+
+/-- What a client streams for the folder `t`: every entry of the walk except the folder itself. -/
+def Node.clientStream (t : Node) : List UpItem := ((t.walk []).drop 1).map Entry.toItem
+
+theorem clientStream_dir (n : Bytes) (kids : List Node) :
+    (Node.dir n kids).clientStream = (sortBy nodeLe kids).flatMap fun k => k.stream ([] ++ [k.name]) := by
+  unfold Node.clientStream
+  rw [walk_dir, List.drop_one, List.tail_cons, List.map_flatMap]
+  rfl
+
+/-- The stream of a good tree into an empty upload folder is acceptable item by item. -/
+theorem clientStream_ok (n : Bytes) (kids : List Node) (hg : (Node.dir n kids).Good) :
+    StreamOK [] (Node.dir n kids).clientStream := by
+  rw [Node.Good] at hg
+  rw [clientStream_dir]
+  obtain ⟨hsub, hnd⟩ := sorted_kids_facts kids hg.2
+  exact (kids_loop kids (subtreeOK_kids kids) (goodKids_mem kids hg.1) [] (sortBy nodeLe kids) hsub hnd
+    [] (Or.inl rfl) (by intro _ _ _ _; rfl)).1
+
+-- ---------------------------------------------------------------- helpers of the property theorems
+
+/-- The items of a folder with a visible name are the visible entries of the walk minus the folder itself. -/
+theorem items_length (t : Node) (hroot : dotName t.name = false) :
+    ((t.walk []).filter Entry.visible).length = t.items.length + 1 := by
+  obtain ⟨e, rest, hw, _, hn⟩ := walk_head t []
+  have hv : e.visible = true := by simp [Entry.visible, hn, hroot]
+  simp [Node.items, hw, hv]
+
+theorem transferSize_value (f : StoredFile) (k : Nat) (h : f.WF) (hk : k ≤ f.data.length) :
+    f.transferSize 0 k = f.hdrLen + (f.data.length - k) + f.rsrcSize := by
+  obtain ⟨_, _, _, hs⟩ := h
+  unfold StoredFile.transferSize
+  rw [sub32_of_le _ _ (Nat.zero_le _) (by omega)]
+  have : k % 4294967296 = k := by omega
+  rw [this]; omega
+
+/-- What an entry contributes to a download apart from metadata: relative path, own name, kind / data. -/
+def Entry.content (e : Entry) : List Bytes × Bytes × Option Bytes := (e.path, e.name, e.file.map (·.data))
+
+theorem headers_of_same_content (l1 l2 : List Entry) (h : l1.map Entry.content = l2.map Entry.content) :
+    (l1.filter Entry.visible).map Entry.header = (l2.filter Entry.visible).map Entry.header ∧
+    (l1.filter Entry.visible).map (fun e => e.file.map (·.data)) = (l2.filter Entry.visible).map (fun e => e.file.map (·.data)) := by
+  induction l1 generalizing l2 with
+  | nil =>
+    cases l2 with
+    | nil => simp
+    | cons _ _ => simp at h
+  | cons a l1 ih =>
+    cases l2 with
+    | nil => simp at h
+    | cons b l2 =>
+      simp only [List.map_cons, List.cons.injEq] at h
+      obtain ⟨hab, hrest⟩ := h
+      obtain ⟨ih1, ih2⟩ := ih l2 hrest
+      simp only [Entry.content, Prod.mk.injEq] at hab
+      obtain ⟨hp, hn, hf⟩ := hab
+      have hv : a.visible = b.visible := by simp [Entry.visible, hn]
+      have hh : a.header = b.header := by
+        unfold Entry.header Entry.isDir
+        rw [hp]
+        have : a.file.isNone = b.file.isNone := by
+          cases ha : a.file <;> cases hb : b.file <;> simp [ha, hb] at hf ⊢
+        rw [this]
+      simp only [List.filter_cons, hv]
+      split
+      · simp [ih1, ih2, hh, hf]
+      · exact ⟨ih1, ih2⟩
 
 end Mobius
